@@ -14,24 +14,34 @@ EXTRACT = ("theories/Extract/XC09.v", "c09",
 PYX = {}
 CASE_TIMEOUT = 60
 TOL = 1e-9
-RULE = ("random track histories of 2-8 frames (quick: 120, thorough: 1000) on the velocity, reverse-velocity "
-        "and static models, 0-7 features per frame (thorough: 0-10); every frame draws a keep/permute/drop/add "
-        "pattern (classes: random, empty frame, all-new, all-dropped+new, identity, reversal, rotation, single "
-        "survivor); coordinates, q and r are dyadic (multiples of 1/4 or 1/64; q = B B^T/d + I with small integer B, "
-        "so SPD with condition number < 10^3 - counted as excluded otherwise), a few short histories use arbitrary "
-        "doubles; plus direct cases for dot_n (three broadcast forms), inv_n/det_n/cofactor_n (sizes 1-4, "
-        "|det| >= 1/8), parity and permutations (all permutations of <= 5 elements).  The whole history is replayed "
-        "through the batched Gallina model (all five state arrays after every frame) and through the per-feature "
-        "specification; integers (state_noise_idx, shapes) and copied values (new-feature initialisation, carried "
-        "history rows) are compared exactly, computed rationals against floats at |impl - model| <= 1e-9 * "
-        "max(1, max|model array|).  non-trivial = some frame keeps >= 2 features in non-identity order or with a "
-        "drop, after >= 1 earlier update (history renumbering exercised); distinct by hash of the case")
+RULE = ("random track histories of 2-16 frames (quick: 110, thorough: 700) on the velocity, reverse-velocity and static "
+        "models and on custom KalmanState(om, tm) objects (1-D constant velocity obs_len 1, 3-D static obs_len 3, a "
+        "scaled/partly hidden model, float-matrix velocity), 0-7 features per frame (thorough 0-12); every frame draws a "
+        "pattern (random keep/permute/drop/add, empty, all-new, identity, reversal, rotation, single survivor, drop only "
+        "trailing / leading / middle, drop-and-re-add in place); 60 % of the histories vary the argument forms per call "
+        "(old_indices int8..int64/intp/uint8..64/list/tuple/strided/read-only, coordinates float64/32/16/int64/Fortran/"
+        "strided/read-only, q and r float64/32/int64/Fortran/strided/read-only/np.broadcast_to; exact conversions only); a "
+        "fifth run as `multi` cases (2-4 independent states interleaved in one process, forks continuing from a shared "
+        "state object; every other live state byte-compared around each call); large frames (quick 12x40 and 3x300 "
+        "features, thorough up to 32x300 and 40x160); data dyadic (multiples of 1/4, 1/64 or integers; q = B B^T/d + I so "
+        "SPD with condition number < 10^3 - counted as excluded otherwise), 5 % short histories of arbitrary doubles; a "
+        "track restarts in place as a new feature after 6-9 frames (counted +age_capped: exact rationals of an old track and "
+        "of the variance over its history grow to thousands of bits); plus direct cases for dot_n (three broadcast forms), "
+        "inv_n/det_n/cofactor_n (sizes 1-4, |det| >= 1/8), parity and permutations (all permutations of <= 5 elements). "
+        "Each history is replayed once through the batched Gallina model, whose per-feature abstraction is the "
+        "specification (theorem C09_fresh_refines_trace; re-checked against the separately extracted specification on "
+        "every 8th history); integers (state_noise_idx, shapes, dtypes) and copied values (new-feature initialisation, "
+        "carried history rows) are compared exactly, computed rationals against floats at |impl - model| <= 1e-9 * "
+        "max(1, max|model array|).  non-trivial = some frame keeps >= 2 features in non-identity order or with a drop, "
+        "after >= 1 earlier update (history renumbering exercised); distinct by hash of the case")
 TRUSTED = ["modelled, not verified: IEEE rounding of the float implementation (model is exact over Q; compared at "
            "relative tolerance 1e-9 on well-conditioned inputs)",
            "modelled, not verified: NumPy fancy indexing / boolean masks / vstack, scipy.ndimage.variance "
            "(population variance per label) as transcribed",
-           "parity() is modelled by inversion counting, permutations() by structural lexicographic enumeration; both "
-           "tied to the code by exact comparison on every permutation of up to 5 elements",
+           "parity() is modelled by inversion counting (proved: the sign; equal to the cycle-counting algorithm as written "
+           "for n <= 5), permutations() by structural lexicographic enumeration; both tied to the code by exact comparison "
+           "on every permutation of up to 5 elements",
+           "the executable model uses shortcut operations for operands 0 and 1 (proved equal to the Qc field operations)",
            "translator harness/props/c09.py:gen_files (ast walk of filter.py for LARGE/SMALL_KALMAN_COV and the "
            "three motion models' matrices)"]
 ASSUMPTIONS = ["old_indices entries are -1 or valid, pairwise distinct indices into the previous frame's features",
@@ -477,7 +487,7 @@ def generate(ctx):
         k += g
     cases.extend(singles)
     # large frames / long histories (exact rationals: most tracks short-lived, integer q and r)
-    big = [(40, 12, "static", 0.55)] if ctx.quick() else \
+    big = [(40, 12, "static", 0.55), (300, 3, "static", 0.9)] if ctx.quick() else \
           [(300, 32, "static", 0.5), (160, 40, "static", 0.6), (120, 30, "velocity", 0.45), (200, 30, "reverse_velocity", 0.35)]
     for maxf, nfr, model, surv in big:
         while True:
@@ -1115,7 +1125,8 @@ MANIFEST = {
         "per-feature textbook predict/update of each feature's own previous tuple and own correction history "
         "(kalman_refines, by induction over frames), new features start as specified, the noise variance is the "
         "variance of the feature's own corrections, a feature's result is independent of index order and of the other "
-        "features, and the cofactor inverse is a two-sided inverse for sizes 1 and 2.  The model is tied to the code "
+        "features, the cofactor inverse is a two-sided inverse for sizes 1 to 4, the batched product is associative and "
+        "the gain solves K S = P H^T for every obs_len on which inv_n inverts S (unconditionally for 1..4).  The model is tied to the code "
         "by replaying random histories through both (all five state arrays after every frame; indices exact, "
         "rationals against floats at relative tolerance 1e-9) and the per-feature specification is evaluated on "
         "the implementation's own output; the input state is compared byte for byte around every call."),
